@@ -38,19 +38,19 @@ theorem specRow_sum_open (b : Basis K) (hper : b.periodic = -1) (u : K) (f : ℕ
 non-periodic direction, while the periodic original accepts it. -/
 theorem lowerPeriodic_evaluate_curve {o : Obj K} {b1 : Basis K} (hb : o.bases = #[b1])
     (hv1 : b1.Valid) (k : ℕ) (hk : b1.periodic = (k : Int))
-    (hguard : b1.order + k ≤ b1.numFunctions) {nc : ℕ}
+    {nc : ℕ}
     (hs : o.cps.shape = [b1.numFunctions, nc]) (hnc : o.rational = true → 1 ≤ nc)
-    (hseam : b1.start < b1.kn b1.order) (target : Int) (h1 : -1 ≤ target) (h2 : target ≤ k)
+    (target : Int) (h1 : -1 ≤ target) (h2 : target ≤ k)
     {tol : K} (htol : 0 < tol) {us : List K} (hus : ∀ u ∈ us, b1.Admissible tol u)
     (hdom : target = -1 → ∀ u ∈ us, b1.start ≤ u ∧ u ≤ b1.stop)
     (hne : target = -1 → us ≠ []) :
-    ∃ o', o.lowerPeriodic target 0 = .ok o' ∧ LowerInv o o' 0 ((k : Int) - target).toNat ∧
+    ∃ o', o.lowerPeriodic target 0 = .ok o' ∧ LowerCore o o' 0 ((k : Int) - target).toNat ∧
       ((∀ u ∈ us, (o'.basis 0).Admissible tol u) →
         o'.evaluate tol [us] true = o.evaluate tol [us] true) := by
   have hb0 : o.basis 0 = b1 := by simp [Obj.basis, hb]
-  obtain ⟨o', hl, hI⟩ := lowerPeriodic_spec o 0 (by rw [hb]; simp) (by rw [hs]; simp)
-    (by rw [hb0]; exact hv1) k (by rw [hb0]; exact hk) (by rw [hb0]; exact hguard)
-    (by rw [hb0, hs]; rfl) (by rw [hb0]; exact hseam) target h1 h2
+  obtain ⟨o', hl, hI⟩ := lowerPeriodic_spec_all o 0 (by rw [hb]; simp) (by rw [hs]; simp)
+    (by rw [hb0]; exact hv1) k (by rw [hb0]; exact hk)
+    (by rw [hb0, hs]; rfl) target h1 h2
   refine ⟨o', hl, hI, fun hadm' => ?_⟩
   set j := ((k : Int) - target).toNat with hj
   have hst : (o'.basis 0).start = b1.start := by rw [← hb0]; exact hI.start_eq
